@@ -1,1 +1,3 @@
 import HvProofs.Basic
+import HvProofs.Hdd
+import HvProofs.Vmtar
